@@ -8,7 +8,50 @@ import z3
 # S1 - flat closed CFGs
 
 
-def s1_space(N: int, entry: int | None = None, max_edges: int | None = None, skeleton=None, tag: str = "", dag: bool = False, require_edges=None):
+def loop_feature(N, A, B, tag="", headers=1, entries=1, exit_targets=1, exiting=1, min_size=1, max_size=None, exit_is_cyclic=False,
+                 latches=1):
+    """Shape requirement handed to the solver: there is a strongly connected set L of blocks (membership L_i, root h,
+    distances d_i from h and c_i to h inside L, all existentially quantified) with at least the given numbers of headers
+    (members entered from outside), entries (outside blocks jumping in), exit targets (outside blocks jumped to), exiting
+    members and latches (members jumping to a header); optionally an exit target that carries a self loop."""
+    def edge(j, i):
+        return z3.Or(A[j] == i, B[j] == i)
+
+    L = [z3.Bool(f"L{tag}{i}") for i in range(N)]
+    h = z3.Int(f"h{tag}")
+    d = [z3.Int(f"d{tag}{i}") for i in range(N)]
+    c = [z3.Int(f"c{tag}{i}") for i in range(N)]
+    cs = [h >= 0, h < N]
+    for i in range(N):
+        cs += [d[i] >= 0, d[i] < N, c[i] >= 0, c[i] < N]
+        cs.append(z3.Implies(h == i, z3.And(L[i], d[i] == 0, c[i] == 0, z3.Or([z3.And(L[j], edge(j, i)) for j in range(N)]))))
+        cs.append(z3.Implies(z3.And(L[i], h != i), z3.And(
+            z3.Or([z3.And(L[j], edge(j, i), d[j] < d[i]) for j in range(N) if j != i]),
+            z3.Or([z3.And(L[t], edge(i, t), c[t] < c[i]) for t in range(N) if t != i]))))
+
+    def one(b):
+        return z3.If(b, 1, 0)
+
+    hdr = [z3.And(L[i], z3.Or([z3.And(z3.Not(L[j]), edge(j, i)) for j in range(N) if j != i])) for i in range(N)]
+    ent = [z3.And(z3.Not(L[j]), z3.Or([z3.And(L[i], edge(j, i)) for i in range(N) if i != j])) for j in range(N)]
+    ext = [z3.And(z3.Not(L[t]), z3.Or([z3.And(L[i], edge(i, t)) for i in range(N) if i != t])) for t in range(N)]
+    exg = [z3.And(L[i], z3.Or([z3.And(z3.Not(L[t]), edge(i, t)) for t in range(N) if t != i])) for i in range(N)]
+    lat = [z3.And(L[i], z3.Or([z3.And(hdr[t], edge(i, t)) for t in range(N)])) for i in range(N)]
+    cs.append(z3.Sum([one(x) for x in hdr]) >= headers)
+    cs.append(z3.Sum([one(x) for x in ent]) >= entries)
+    cs.append(z3.Sum([one(x) for x in ext]) >= exit_targets)
+    cs.append(z3.Sum([one(x) for x in exg]) >= exiting)
+    cs.append(z3.Sum([one(x) for x in lat]) >= latches)
+    cs.append(z3.Sum([one(x) for x in L]) >= min_size)
+    if max_size:
+        cs.append(z3.Sum([one(x) for x in L]) <= max_size)
+    if exit_is_cyclic:
+        cs.append(z3.Or([z3.And(ext[t], edge(t, t)) for t in range(N)]))
+    return z3.And(cs)
+
+
+def s1_space(N: int, entry: int | None = None, max_edges: int | None = None, skeleton=None, tag: str = "", dag: bool = False, require_edges=None,
+             features=None):
     """Closed CFG over N blocks.
 
     Block i has ordered successor slots a_i, b_i in {-1, 0..N-1}; -1 = absent,
@@ -67,6 +110,8 @@ def s1_space(N: int, entry: int | None = None, max_edges: int | None = None, ske
             cs.append(edge(skeleton[k], skeleton[k + 1]))
     for (i, j) in (require_edges or []):
         cs.append(edge(i, j))
+    for k, f in enumerate(features if isinstance(features, list) else ([features] if features else [])):
+        cs.append(loop_feature(N, A, B, tag=f"{tag}f{k}_", **f))
     aux = {"N": N, "A": A, "B": B, "e": e}
     cube_vars = [e, A[0], B[0], A[1], B[1]] if N >= 4 else [e, A[0]]
     if require_edges and N >= 6:
